@@ -176,6 +176,11 @@ def classic(rng):
         lambda: ir.binop('**', big, ir.num(rng.choice([0.5, 1.5]))), lambda: ir.binop('**', ir.num(1.5), big),
         lambda: ir.binop('%', ir.num(rng.choice([5, 5.5])), rng.choice([neg(0), ir.num(0)])),
         lambda: ir.unop('-', big), lambda: ir.binop('*', big, big),
+        # comparison operators over an int beyond the float range and a float (Python compares them exactly)
+        lambda: ir.binop(rng.choice(['==', '!=', '<', '<=', '>', '>=']), rng.choice([big, ir.var('gHuge'), ir.unop('-', big)]),
+                         ir.num(rng.choice([1, 0.5, 1e300]))),
+        lambda: ir.binop(rng.choice(['==', '!=', '<', '<=', '>', '>=']), ir.num(rng.choice([0, 2.5])),
+                         rng.choice([big, ir.call('arrayNew', big), ir.call('objectNew', ir.s('k'), big)])),
         # datetimes of different flavours meeting in comparison and difference operators
         lambda: ir.binop(rng.choice(['==', '!=', '<', '<=', '>', '>=', '-']),
                          ir.var(rng.choice(['gAware', 'gAwareUtc', 'gNaive', 'gDate'])),
@@ -636,9 +641,10 @@ def run_adversarial(plan, stats):
                     break
             if viols:
                 break
-            bad_fetch = check_fetch_shapes(plan, obs)
+            bad_fetch = check_fetch_shapes(plan, obs) or check_fetch_values(plan, out.events)
             if bad_fetch is not None:
-                viols.append(Violation(PROP, 'fetch', 'systemFetch-result-shape', bad_fetch))
+                viols.append(Violation(PROP, 'fetch', 'systemFetch-element-is-not-its-own-resource' if 'fetches' in bad_fetch
+                                       else 'systemFetch-result-shape', bad_fetch))
                 break
             logs = [e[1] for e in out.events if e[0] == 'log']
             if not debug and any(isinstance(t, str) and t.startswith('BareScript:') for t in logs):
@@ -747,6 +753,38 @@ def check_fetch_shapes(plan, obs):
         elif valid_item(arg):
             if not (value is None or isinstance(value, str)):
                 return {'statement': ix, 'expected': 'string or null', 'observed': value}
+    return None
+
+
+def check_fetch_values(plan, events):
+    """C05.fetch, value level: every element of a systemFetch result is the text of the resource whose fetch
+    succeeded, or null for the one whose fetch failed / raised / was missing — never another resource's text."""
+    pairs = [st for st in plan['model'] if 'expr' in st and st['expr'].get('name', '').startswith('r')]
+    texts = {k: v.get('text') for k, v in (plan.get('files') or {}).items()}
+    fetches = []
+    ix = -1
+    for ev in events:
+        if ev[0] == 'fetch':
+            fetches.append(ev)
+            continue
+        if ev[0] != 'obs':
+            continue
+        ix += 1
+        mine, fetches = fetches, []
+        if ix >= len(pairs):
+            break
+        e = pairs[ix]['expr']['expr']
+        if 'function' not in e or e['function']['name'] != 'systemFetch' or len(e['function'].get('args', [])) != 1:
+            continue
+        value = ev[1][1][1]
+        arg = e['function']['args'][0]
+        is_array = 'function' in arg and arg['function']['name'] == 'arrayNew'
+        got = value[1] if is_array and isinstance(value, list) and value[0] == 'L' else [value]
+        if not all(v is None or isinstance(v, str) for v in got) or len(mine) != len(got):
+            continue         # shapes are check_fetch_shapes' business; invalid requests fetch nothing
+        want = [texts.get(f[1]) if f[2] == 'ok' else None for f in mine]
+        if got != want:
+            return {'statement': ix, 'fetches': [list(f[1:]) for f in mine], 'expected': want, 'observed': got}
     return None
 
 
